@@ -10,7 +10,7 @@ LEVEL = "exploration"
 RULE = ("cases are import graphs (DAGs) over up to 4 (quick) / 5 (thorough) modules with entry m0: every edge is `import m`, "
         "`import a, b from m`, the type-only `import type T from m` or the mixed `import type T, a, b from m`, each import statement sits at a chosen position among the importer's side-effecting top-level "
         "statements and is followed by a call that bumps the imported module's counter (or, for a type-only import, a declaration that uses the type); modules live flat, partly in a "
-        "sub-directory, in alternating directories that reach each other through `../`, or each in a directory of its own under a file name shared with other modules and with the entry (`d1/main.ms`, `d2/u.ms`, `d3/u.ms`); paths optionally spelled with `./`; every module exports a bump function, a getter, a list and a scalar "
+        "sub-directory, in alternating directories that reach each other through `../`, each in a directory of its own under a file name shared with other modules and with the entry (`d1/main.ms`, `d2/u.ms`, `d3/u.ms`), or flat with a same-named DIRECTORY next to every module file (`m1.ms` + `m1/part_1.ms`); paths optionally spelled with `./`; every module exports a bump function, a getter, a list and a scalar "
         "and keeps one private name. Enumerated: all DAGs over <= 3 modules x all four import forms per edge x 2 placements; random: "
         "Hypothesis graphs. Oracle: a depth-first simulation (each module once, at its first executed import, completed before "
         "the importer continues; one counter per module shared by all importers) prescribes the exact trace, checked under `run` "
@@ -133,6 +133,10 @@ def build(case):
                     lines.append("print \"final m%d \" + get_%d()" % (j, j))
             lines.append("print \"@end\"")
         files[mod_path(k, layout)] = "\n".join(lines) + "\n"
+        if layout == "facade":
+            # next to every module file lies a DIRECTORY with the module's name (a facade module in front of its parts):
+            # `import m1` means the file m1.ms; the directory and what it holds play no part
+            files["%s/part_%d.ms" % (mod_path(k, layout)[:-3], k)] = "print \"never: part of m%d\"\n" % k
     # simulation
     out, done, counter = [], set(), {k: 0 for k in range(n)}
 
@@ -195,6 +199,10 @@ def negative_scenario(kind):
         main = "import m1\nprint \"@start\"\nk = m1\nk.counter_1 += 9\nprint m1.get_1()\n"
     elif kind == "wrong-type-use":
         main = "import counter_1 from m1\nprint \"@start\"\nx: str = counter_1\nprint x\n"
+    elif kind == "exported-twice":
+        # a name is exported once: the second export is a diagnostic of the MODULE, not a failure of its importer at run time
+        lib = lib + "export counter_1: int = 7\n"
+        main = "import m1\nprint \"@start\"\nprint m1.counter_1\n"
     else:
         raise ValueError(kind)
     return {"files": {"p/q/r/main.ms": main, "p/q/r/m1.ms": lib}, "cwd": "p/q/r",
@@ -222,13 +230,28 @@ def special_scenario(kind):
         main = "import shapes\ngo = fn() -> int {\n\tShape = 7\n\treturn shapes.make(Shape)\n}\nprint go()\nprint shapes.made\nprint \"@end\"\n"
         exp = ["shapes init", "8", "1", "@end"]
         files = {"main.ms": main, "shapes.ms": shapes}
+    elif kind == "names-that-begin-with-keywords":
+        # exported names that BEGIN with a word of the import syntax (`type`, `from`, `import`) are ordinary names
+        lib = "print \"lib init\"\nexport typed_value: int = 7\nexport types: int = 3\nexport fromage: int = 2\nexport imported: int = 1\nexport type Tv int\nexport typeset: fn() -> int = fn() -> int {\n\treturn 5\n}\n"
+        main = "import typed_value, types, fromage, imported, typeset from lib\nimport type Tv from lib\nq: Tv = typed_value + types + fromage + imported + typeset()\nprint q\nimport lib\nprint lib.typed_value\nprint \"@end\"\n"
+        exp = ["lib init", "18", "7", "@end"]
+        files = {"main.ms": main, "lib.ms": lib}
+    elif kind == "exported-object-by-name":
+        # `import box from o`: an exported variable that holds an object has its declared type (the class), is the SAME object for
+        # every importer and for the exporting module, and the class imported next to it still constructs
+        lib = ("print \"o init\"\nexport class Box {\n\tv: int\n\tconstructor(self, v: int) {\n\t\tself.v = v\n\t}\n}\nexport box: Box = Box(1)\n"
+               "export bump: fn() -> int = fn() -> int {\n\tbox.v = box.v + 1\n\treturn box.v\n}\n")
+        main = ("import box, Box, bump from o\nprint box.v\nprint bump()\nprint box.v\nb2 = Box(5)\nprint b2.v\nuse = fn(b: Box) -> int {\n\treturn b.v\n}\nprint use(box)\nimport o\nprint (o.box).v\nprint \"@end\"\n")
+        exp = ["o init", "1", "2", "2", "5", "2", "2", "@end"]
+        files = {"main.ms": main, "o.ms": lib}
     else:
         raise ValueError(kind)
     return make_scenario(files, exp)
 
 
-SPECIALS = ["self-in-imported-class:importer-top-level", "self-in-imported-class:entry-module", "self-in-imported-class:from-function"]
-NEGATIVES = ["private-via-module", "private-via-names", "write-module-member", "write-through-module-alias", "opassign-through-module-alias", "wrong-type-use"]
+SPECIALS = ["self-in-imported-class:importer-top-level", "self-in-imported-class:entry-module", "self-in-imported-class:from-function",
+            "names-that-begin-with-keywords", "exported-object-by-name"]
+NEGATIVES = ["private-via-module", "private-via-names", "write-module-member", "write-through-module-alias", "opassign-through-module-alias", "wrong-type-use", "exported-twice"]
 
 
 def describe(case):
@@ -304,7 +327,7 @@ def enumerated(tier, seed):
         # module in a directory of its own under a file name it SHARES with other modules / with the entry ("twin")
         for es in all_dags(n):
             for forms in itertools.product(["module", "names"], repeat=len(es)):
-                for layout in ("alt", "twin"):
+                for layout in ("alt", "twin", "facade"):
                     edges = [(i, j, f, b % 3, False) for b, ((i, j), f) in enumerate(zip(es, forms))]
                     cases.append({"n": n, "edges": edges, "layout": layout})
         # the same graphs with every import statement of one importer placed inside a function of that importer
@@ -348,7 +371,7 @@ def graphs(draw):
     infn = [[e[0], e[1], e[2]] for e in edges if e[2] in ("module", "names") and g.chance(15)]
     # one name per importer: an edge inside a function needs its (importer, imported, form) to be unique
     infn = [x for x in infn if sum(1 for e in edges if [e[0], e[1], e[2]] == x) == 1]
-    layout = g.choice(["flat", "flat", "sub", "alt", "twin"])
+    layout = g.choice(["flat", "flat", "sub", "alt", "twin", "facade"])
     if layout == "twin":
         g.label("same-file-name-in-several-directories")
         return {"n": n, "edges": edges, "layout": layout, "profiles": {}}
